@@ -264,7 +264,7 @@ impl Ctx {
                             Some(a) => sub.received.len() as u64 - (a + 1).min(sub.received.len() as u64),
                             None => sub.received.len() as u64,
                         };
-                        if outstanding > sub.window + 1 {
+                        if outstanding > sub.window {
                             self.violation("window-exceeded", &kind, format!("{when}: subscription {si} has {outstanding} unacknowledged deliveries with a window of {}", sub.window));
                         }
                     }
